@@ -203,7 +203,7 @@ func stakeProfile() *Profile {
 		OpDelegate: 6, OpUndelegate: 8, OpRedelegate: 6, OpCancelUnbond: 3, OpCreateVal: 1, OpUnjailVal: 1, OpUnjailReporter: 3, OpMultiStake: 1,
 	}
 	return &Profile{Name: "stake", Weights: w, MinBlocks: 10, MaxBlocks: 35, MaxOps: 5, AbsentPM: 100, BadVarPM: 60, Setup: true, ThoroughScale: 3,
-		GapW: []int{2, 2, 8, 20, 3, 3, 2, 2, 6, 6, 6, 1, 2, 0}}
+		GapW: []int{2, 2, 8, 20, 3, 3, 2, 2, 6, 6, 6, 1, 2, 0, 5}}
 }
 
 func TestC05_StakeLedger(t *testing.T) {
